@@ -7,7 +7,7 @@ From Coq Require Import List NArith ZArith Bool.
 Import ListNotations.
 From JR Require Import Stream Stream_Proofs.
 From JRGen Require Extracted.
-From JR Require Skeletons.
+From JR Require Skeletons Forwarder Forwarder_Proofs.
 
 Theorem c07_source_facts :
   Extracted.chValue = "xrpc.ch.val"%string /\ Extracted.chClose = "xrpc.ch.close"%string /\
@@ -55,6 +55,47 @@ Example c07_ex : exists s,
            ConsRecv 7; OchClose; ChVal; SinkVal 8; ChClose; ConsRecv 8; ConsClosed]%Z = Some s /\ cons s = [7; 8]%Z /\ how s = ByServer.
 Proof. eexists. split; [vm_compute; reflexivity|split; reflexivity]. Qed.
 
+(* ---- the forwarder's bookkeeping (Forwarder.v): `cases` and `caseToID` as two parallel slices, registration appends to
+   both, a closed channel is removed from both by swap-remove, a value goes out tagged with the id at its case's index.
+   For EVERY history of registrations, closes and values, of any length (channels registered only while not registered,
+   closes and values only from registered channels — what reflect.Select can report): every value and every close
+   notification leaves under the id its channel was registered with; the specification is a finite map. *)
+Theorem c07_forwarder_tags : forall os,
+  Forwarder.wf_ops os Forwarder.empty = true ->
+  snd (Forwarder.run Forwarder.fw0 os) = Forwarder.aouts os Forwarder.empty.
+Proof. intros os H. exact (proj1 (Forwarder_Proofs.forwarder_refines os _ _ Forwarder_Proofs.inv_init H)). Qed.
+
+(* the two slices stay aligned and hold no channel twice *)
+Theorem c07_forwarder_aligned : forall os, Forwarder.wf_ops os Forwarder.empty = true ->
+  length (Forwarder.chans (fst (Forwarder.run Forwarder.fw0 os))) = length (Forwarder.tags (fst (Forwarder.run Forwarder.fw0 os))) /\
+  NoDup (Forwarder.chans (fst (Forwarder.run Forwarder.fw0 os))).
+Proof. exact Forwarder_Proofs.forwarder_aligned. Qed.
+
+(* swap-remove removes exactly the slot at the index, up to order *)
+Theorem c07_swap_remove_is_removal : forall (A : Type) (l : list A) i, i < length l ->
+  Permutation.Permutation (Forwarder.swap_remove l i) (Forwarder.remove_nth i l).
+Proof. exact @Forwarder_Proofs.swap_remove_perm. Qed.
+
+(* variants that are not the code: the channel slice compacted in order while the id slice is swapped (seeded change
+   C07-a), a parallel slice that is not cut (the request-id slice of seeded change C06-d) *)
+Theorem c07_refuted_mixed_removal :
+  exists os, Forwarder.wf_ops os Forwarder.empty = true /\
+    snd (Forwarder.frun Forwarder.ByShift Forwarder.BySwap Forwarder.fw0 os) <> Forwarder.aouts os Forwarder.empty.
+Proof. exact Forwarder_Proofs.refuted_mixed_removal. Qed.
+
+Theorem c07_refuted_untruncated_slice :
+  exists os, Forwarder.wf_ops os Forwarder.empty = true /\
+    snd (Forwarder.frun Forwarder.BySwap Forwarder.NotAtAll Forwarder.fw0 os) <> Forwarder.aouts os Forwarder.empty.
+Proof. exact Forwarder_Proofs.refuted_untruncated. Qed.
+
+Example c07_forwarder_nonvacuous :
+  Forwarder.wf_ops [Forwarder.FReg 10 1; Forwarder.FReg 20 2; Forwarder.FReg 30 3; Forwarder.FVal 30; Forwarder.FClose 10;
+                    Forwarder.FVal 30; Forwarder.FVal 20; Forwarder.FClose 30; Forwarder.FReg 40 4; Forwarder.FVal 40]%N Forwarder.empty = true /\
+  snd (Forwarder.run Forwarder.fw0 [Forwarder.FReg 10 1; Forwarder.FReg 20 2; Forwarder.FReg 30 3; Forwarder.FVal 30; Forwarder.FClose 10;
+                    Forwarder.FVal 30; Forwarder.FVal 20; Forwarder.FClose 30; Forwarder.FReg 40 4; Forwarder.FVal 40]%N)
+    = [None; None; None; Some 3; Some 1; Some 3; Some 2; Some 3; None; Some 4]%N.
+Proof. split; reflexivity. Qed.
+
 (* the functions this property's model is an abstraction of still have the control / locking / shared-state skeleton the
    model was written against (Skeletons.v, by hand; Extracted.v, regenerated from /repo) *)
 Theorem c07_code_skeletons :
@@ -65,6 +106,11 @@ Theorem c07_code_skeletons :
 Proof. repeat split; reflexivity. Qed.
 
 Print Assumptions c07_code_skeletons.
+Print Assumptions c07_forwarder_tags.
+Print Assumptions c07_forwarder_aligned.
+Print Assumptions c07_swap_remove_is_removal.
+Print Assumptions c07_refuted_mixed_removal.
+Print Assumptions c07_refuted_untruncated_slice.
 Print Assumptions c07_source_facts.
 Print Assumptions c07_prefix_order.
 Print Assumptions c07_lossless_on_close.
